@@ -30,10 +30,15 @@ def session(rng, nnodes, nmsgs, frag_off=False, closed=True):
         typ = rng.randint(0, 127)
         maxlen = 24 if (frag_off and (s in nofrag or True)) else 144
         n = rng.choice([0, 1, 8, 23, 24, 24] + ([25, 47, 48, 49, 72, 73, 100, 143, 144, rng.randint(25, 144)] if maxlen > 24 else []))
-        ops.append(f"{names[s]} write {gen_net.addr_of(tree[d])} {typ} {rbytes(rng, n)} 56")
+        if rng.random() < 0.25:     # RF24Network.send(header, message) = write(RF24NetworkFrame(header, message))
+            ops.append(f"{names[s]} nsend {gen_net.addr_of(tree[d])} {typ} {rbytes(rng, n)}")
+        else:
+            ops.append(f"{names[s]} write {gen_net.addr_of(tree[d])} {typ} {rbytes(rng, n)} 56")
         ops.append(f"{names[rng.randrange(len(tree))]} update")   # flushes the whole network (closed system)
         ops.append(f"{names[rng.randrange(len(tree))]} update")
         for i in range(len(tree)):
+            if rng.random() < 0.4:      # the application polls the documented way: available(), peek(), then read()
+                ops += [f"{names[i]} available", f"{names[i]} peek"]
             ops += [f"{names[i]} read", f"{names[i]} read"]
     return f"net {len(tree)} {1 if closed else 0} " + " ; ".join(ops)
 
@@ -63,7 +68,7 @@ class C05(PropCheck):
     def judge(self, triples):
         out = []
         for l, io, mo in triples:
-            if not l.startswith("net ") or " write " not in l:
+            if not l.startswith("net ") or (" write " not in l and " nsend " not in l):
                 continue
             names = l.split(" ; ")
             parts = io.split(" ; ")
@@ -71,6 +76,7 @@ class C05(PropCheck):
             what = None
             cur = None          # message in flight: (src addr, dst addr, type, msg hex, result, op index)
             got = {}            # name -> frames read since the message was written
+            polled = {}         # name -> (available(), peek()) seen just before its next read()
             for k, (name, part) in enumerate(zip(names, parts)):
                 t = name.split()
                 if k == 0:
@@ -101,7 +107,7 @@ class C05(PropCheck):
                         return f"message {oct(src)}->{oct(dst)} (op {kk}) was delivered but write() returned {result}"
                     return None
 
-                if t[1] == "write":
+                if t[1] in ("write", "nsend"):
                     what = settle()
                     if what:
                         break
@@ -112,7 +118,16 @@ class C05(PropCheck):
                         break
                     cur = (addr_of_name[t[0]], int(t[2]), int(t[3]), t[4], r, k)
                 elif t[1] == "read" and cur is not None:
-                    got.setdefault(t[0], []).append(res.split(" all=")[0].split()[0] if res != "N" else "N")
+                    fr = res.split(" all=")[0].split()[0] if res != "N" else "N"
+                    got.setdefault(t[0], []).append(fr)
+                    pk = polled.pop(t[0], None)
+                    if pk is not None and pk != (("T" if fr != "N" else "F"), fr):
+                        what = (f"op {k}: node {t[0]}: available()/peek() reported {pk} but read() then returned {fr}")
+                        break
+                elif t[1] == "available":
+                    polled[t[0]] = (res.split()[0],)
+                elif t[1] == "peek" and t[0] in polled and len(polled[t[0]]) == 1:
+                    polled[t[0]] += (res.split(" all=")[0].split()[0] if res != "N" else "N",)
                 elif t[1] == "update" and res.startswith("exc="):
                     what = f"update() raised {res}"
                     break
